@@ -77,6 +77,8 @@ type PgWorld struct {
 	chunkMod int // 0: whole, 1: small chunks, 2: byte by byte
 	maxSteps int
 	mysql    bool
+	// WriteYield: the proxy's writes become scheduling points (see stream.yield)
+	WriteYield bool
 }
 
 // PgWorldConfig configures NewPgWorld.
@@ -220,6 +222,14 @@ func (pw *PgWorld) RunSession(clientID string, script []Stmt) *SessionRun {
 	cEnd, pcEnd := NewConnPair("client", "proxy-c")
 	pdEnd, dEnd := NewConnPair("proxy-d", "db")
 	run := &SessionRun{ToDB: pdEnd.wr, FromDB: dEnd.wr, ToClient: pcEnd.wr, FromCl: cEnd.wr}
+	if pw.W.Plan.Sw("wyield") == 1 {
+		pw.WriteYield = true
+	}
+	if pw.WriteYield {
+		pcEnd.wr.yield, pdEnd.wr.yield = true, true
+		defer pcEnd.wr.stopYield()
+		defer pdEnd.wr.stopYield()
+	}
 	run.Results = make([]StmtResult, len(script))
 	if pw.runRef != nil {
 		pw.runRef.toClient = run.ToClient
@@ -308,6 +318,26 @@ func (pw *PgWorld) RunSession(clientID string, script []Stmt) *SessionRun {
 				en = append(en, s)
 			}
 		}
+		var parked []*stream
+		if pw.WriteYield {
+			for _, s := range streams {
+				if s.parkedWriters() > 0 {
+					parked = append(parked, s)
+				}
+			}
+		}
+		picked := -1
+		if len(parked) > 0 {
+			// either a delivery or letting a writer go on after its Write
+			k := w.Choose(len(en) + len(parked))
+			if k >= len(en) {
+				ps := parked[k-len(en)]
+				ps.resumeWriter()
+				w.Event(0, "resume-writer "+ps.name, "")
+				continue
+			}
+			picked = k
+		}
 		if len(en) == 0 {
 			if finished < actors {
 				// nobody can move and not everybody is done: either waiting
@@ -344,7 +374,10 @@ func (pw *PgWorld) RunSession(clientID string, script []Stmt) *SessionRun {
 			}
 			break
 		}
-		s := en[w.Choose(len(en))]
+		if picked < 0 {
+			picked = w.Choose(len(en))
+		}
+		s := en[picked]
 		pw.applyStreamFaults(s, []*SimConn{cEnd, pcEnd, pdEnd, dEnd})
 		n := s.pending()
 		if n == 0 {
